@@ -34,7 +34,7 @@ Inductive frame :=
 (* graph.go *)
 | FInvList (l : list nat)                  (* call invalidate() on every node of l, in any order *)
 | FStrobe (n : nat)                        (* strobe: snapshot still to be taken *)
-| FRelEnter (n : nat)                      (* release() entered *)
+| FRelEnter (n : nat)                      (* release() entered: n.invalidate() is next *)
 | FRelMark (n : nat)                       (* release(): the nested invalidate returned; check/set released *)
 | FCleanup (n slot : nat)                  (* afterRelease of a slot resource running *)
 | FRelDeps (n : nat) (froms : list nat)    (* release(): loop over n.in *)
@@ -185,27 +185,34 @@ Definition do_fail (s : state) (r : nat) (st : list frame) (retry : bool) : resu
       else Some (with_rr s r (set_failed x), FUnlock r :: below, rels)
   end.
 
+(** The critical section of [invalidate] on node n and the handler call that follows it (graph.go:77-98);
+    [k] is what the caller does afterwards.  If n was valid: mark, snapshot [out]; a non-spawning rerun handler
+    runs r.run() on this very stack before the snapshot is walked. *)
+Definition inv_step (s : state) (n : nat) (k : list frame) : result :=
+  if Nat.ltb n (length (s_nodes s)) then
+    let nd := getN s n in
+    if n_inv nd then Some (s, k, [])
+    else
+      let s' := with_nodes s (g_inv_mark (s_nodes s) n) in
+      match n_hinv nd with
+      | Some r =>
+          if r_spawn (getr s r)
+          then Some (s', FInvList (n_out nd) :: k, [[FRunWait r]])
+          else Some (s', FRunWait r :: FInvList (n_out nd) :: k, [])
+      | None => Some (s', FInvList (n_out nd) :: k, [])
+      end
+  else None.
+
 Definition step_top (s : state) (f : frame) (rest : list frame) (arg : nat) : result :=
   match f with
   (* --- graph.go --- *)
   | FInvList l =>
-      (* invalidate() on node arg, one of the nodes still to do (graph.go:77-94) *)
-      if memb arg l && Nat.ltb arg (length (s_nodes s)) then
-        let l' := remove1 arg l in
-        let nd := getN s arg in
-        if n_inv nd then Some (s, FInvList l' :: rest, [])
-        else
-          let s' := with_nodes s (g_inv_mark (s_nodes s) arg) in
-          match n_hinv nd with
-          | Some r =>
-              if r_spawn (getr s r)
-              then Some (s', FInvList (n_out nd) :: FInvList l' :: rest, [[FRunWait r]])
-              else Some (s', FRunWait r :: FInvList (n_out nd) :: FInvList l' :: rest, [])
-          | None => Some (s', FInvList (n_out nd) :: FInvList l' :: rest, [])
-          end
-      else None
+      (* invalidate() on node arg, one of the nodes still to do *)
+      if memb arg l then inv_step s arg (FInvList (remove1 arg l) :: rest) else None
   | FStrobe n => Some (s, FInvList (n_out (getN s n)) :: rest, [])
-  | FRelEnter n => Some (s, FInvList [n] :: FRelMark n :: rest, [])
+  | FRelEnter n =>
+      (* release() starts with n.invalidate() (graph.go:107): its critical section on n is the first one *)
+      inv_step s n (FRelMark n :: rest)
   | FRelMark n =>
       let nd := getN s n in
       if n_rel nd then Some (s, rest, [])
@@ -317,8 +324,12 @@ Definition step_top (s : state) (f : frame) (rest : list frame) (arg : nat) : re
             opt_task (r_comp x) (fun old => [FRelEnter old]))
   | FArm r c =>
       (* rerunner.go:431-437 = handleInvalidate *)
-      let '(g, fired) := g_handle_inv (s_nodes s) c r in
-      Some (with_nodes s g, FUnlock r :: rest, if fired then [[FRunWait r]] else [])
+      (* a second handler on a valid node panics (graph.go:181-183): not a behaviour of the rerunner, whose
+         computation node is fresh *)
+      if negb (n_inv (getN s c)) && (match n_hinv (getN s c) with Some _ => true | None => false end) then None
+      else
+        let '(g, fired) := g_handle_inv (s_nodes s) c r in
+        Some (with_nodes s g, FUnlock r :: rest, if fired then [[FRunWait r]] else [])
   | FUnlock r => Some (with_rr s r (set_mu (getr s r) false), rest, [])
   (* --- Stop --- *)
   | FStop r false => Some (with_rr s r (set_cancel (getr s r)), FStop r true :: rest, [])
